@@ -124,28 +124,38 @@ def collect_consts(exprs):
     return out
 
 
-def run_portfolio(constraints, strategies, timeout_s=60.0, want_model=True):
-    """constraints: list of z3 Bool.  returns (result str, DictModel|None, info dict)"""
-    s = z3.Solver()
-    s.add(*constraints)
-    text = s.to_smt2()
-    text = text.replace("(check-sat)", "")
-    consts = collect_consts(constraints)
-    names = [n for n in consts]
+def run_portfolio(constraints, strategies, timeout_s=60.0, want_model=True, trust_sat=None):
+    """constraints: list of z3 Bool, or a list of alternative (equivalent) constraint lists.
+    returns (result str, DictModel|None, info dict)"""
+    variants = constraints if (constraints and isinstance(constraints[0], (list, tuple))) else [constraints]
     t0 = time.time()
     procs = []
     tmpdir = tempfile.mkdtemp(prefix="vq", dir=os.environ.get("VERIF_TMP", None))
+    text0 = None
     try:
-        for k, st in enumerate(strategies):
-            body = "(set-option :pp.decimal true)\n(set-option :pp.decimal_precision 40)\n" + text + "\n" + STRATEGIES[st] + "\n"
-            if want_model and names:
-                body += "(get-value (" + " ".join(_quote(n) for n in names) + "))\n"
-            fn = os.path.join(tmpdir, f"q{k}.smt2")
-            with open(fn, "w") as f:
-                f.write(body)
-            p = subprocess.Popen([Z3BIN, "-smt2", fn], stdout=subprocess.PIPE, stderr=subprocess.STDOUT, text=True)
-            procs.append((st, p))
+        k = 0
+        for vi, cons in enumerate(variants):
+            sv = z3.Solver()
+            sv.add(*cons)
+            text = sv.to_smt2().replace("(check-sat)", "")
+            if text0 is None:
+                text0 = text
+            consts = collect_consts(cons)
+            names = [n for n in consts]
+            strs = strategies[vi] if (strategies and isinstance(strategies[0], (list, tuple))) else strategies
+            for st in strs:
+                body = "(set-option :pp.decimal true)\n(set-option :pp.decimal_precision 40)\n" + text + "\n" + STRATEGIES[st] + "\n"
+                if want_model and names:
+                    body += "(get-value (" + " ".join(_quote(n) for n in names) + "))\n"
+                fn = os.path.join(tmpdir, f"q{k}.smt2")
+                k += 1
+                with open(fn, "w") as f:
+                    f.write(body)
+                p = subprocess.Popen([Z3BIN, "-smt2", fn], stdout=subprocess.PIPE, stderr=subprocess.STDOUT, text=True)
+                procs.append(((st, consts, True if trust_sat is None else trust_sat[vi]), p))
+        text = text0
         result, model, winner = "unknown", None, None
+        sat_cand = None
         pending = list(procs)
         while pending and time.time() - t0 < timeout_s:
             progressed = False
@@ -159,17 +169,23 @@ def run_portfolio(constraints, strategies, timeout_s=60.0, want_model=True):
                     if errs:
                         continue  # an error line makes this strategy's answer inconclusive
                     if first == "unsat":
-                        result, winner = "unsat", st
+                        result, winner = "unsat", st[0]
                         pending = []
                         break
+                    if first == "sat" and not st[2]:
+                        continue  # generalised (abstracted) variant: only `unsat` is meaningful
                     if first == "sat":
-                        result, winner = "sat", st
-                        if want_model:
-                            model = _read_model(out, consts)
-                        pending = []
-                        break
+                        # with several equivalent formulations racing, `sat` of one of them is only a candidate
+                        # (uninterpreted EXP/LOG make it possibly spurious): wait for the others, an `unsat` wins
+                        if sat_cand is None or st[2] == "prefer":
+                            sat_cand = (st[0], _read_model(out, st[1]) if want_model else None)
+                        if len(variants) == 1:
+                            pending = []
+                            break
             if not progressed:
                 time.sleep(0.01)
+        if result == "unknown" and sat_cand is not None:
+            result, winner, model = "sat", sat_cand[0], sat_cand[1]
         return result, model, dict(winner=winner, wall_s=time.time() - t0, smt2=text)
     finally:
         for st, p in procs:
